@@ -599,6 +599,10 @@ class StubsBase:
         ax = z3.If(exact >= 0, exact, -exact)
         u = z3.Q(1, 2 ** 53)
         ctx.assume(z3.And(r - exact <= u * ax, exact - r <= u * ax), why="M_u: rounded operation")
+        # sound side facts of round-to-nearest: monotone, and the identity on small integers
+        # (ground instances at the anchors -1, 0, 1)
+        for k in (-1, 0, 1):
+            ctx.assume(z3.And(z3.Implies(exact >= k, r >= k), z3.Implies(exact <= k, r <= k)), why="M_u: RN monotone / exact on small integers")
         ctx.note("model-M_u: each float operation has relative error <= 2^-53; integer-valued operands below 2^53 add exactly")
         return r
 
